@@ -34,6 +34,26 @@ def discharge(ob, timeout_ms, use_cvc5=True):
         r = z3.unknown
     finally:
         timer.cancel()
+    # z3 sometimes gives up at once on a query it proves in milliseconds on the next run ("incomplete (theory array)" after a
+    # candidate model it cannot confirm under quantifiers): an early `unknown` is retried with other seeds — an `unsat`
+    # from any run is sound, so this only removes flakiness
+    retry = 0
+    while r == z3.unknown and retry < 3 and time.time() - t0 < min(5.0, timeout_ms / 2000.0):
+        retry += 1
+        s = z3.Solver()
+        s.set('timeout', timeout_ms)
+        s.set('random_seed', 7 * retry)
+        for f in ob.pc:
+            s.add(f)
+        s.add(z3.Not(ob.goal))
+        timer = threading.Timer(timeout_ms / 1000.0 + 2.0, s.ctx.interrupt)
+        timer.start()
+        try:
+            r = s.check()
+        except z3.Z3Exception:
+            r = z3.unknown
+        finally:
+            timer.cancel()
     backend = 'z3'
     model = None
     reason = ''
@@ -278,25 +298,69 @@ def _job(args):
     key = hashlib.sha256(f'{tree_key()}|{contract.qual}|{label}|{timeout_ms}'.encode()).hexdigest()[:32]
     path = os.path.join(CACHE_DIR, key + '.json')
     use_cache = not os.environ.get('PYVC_NOCACHE')
-    if use_cache and os.path.exists(path):
-        try:
-            with open(path, 'r', encoding='utf-8') as fh:
-                rep = json.load(fh)
-            rep['cached'] = True
+
+    def cached():
+        if use_cache and os.path.exists(path):
+            try:
+                with open(path, 'r', encoding='utf-8') as fh:
+                    rep = json.load(fh)
+                rep['cached'] = True
+                return rep
+            except (OSError, ValueError):
+                pass
+        return None
+    rep = cached()
+    if rep is not None:
+        return rep
+    os.makedirs(CACHE_DIR, exist_ok=True)
+    # checks started side by side (several properties share the runtime contracts) must not compute the same report twice:
+    # the first process to take the report's lock computes it, the others wait and read the cache
+    import fcntl
+    lock = open(path + '.lock', 'w')            # pylint: disable=consider-using-with
+    try:
+        fcntl.flock(lock, fcntl.LOCK_EX)
+        rep = cached()
+        if rep is not None:
             return rep
-        except (OSError, ValueError):
-            pass
-    cfg = cfg_factory(contract)
-    if case is not None and case != 'coverage':
-        case = contract.cases()[case]
-    rep = verify_contract(contract, cfg, timeout_ms, case=case)
-    if use_cache and not rep.get('error'):
-        os.makedirs(CACHE_DIR, exist_ok=True)
-        tmp = path + f'.{os.getpid()}.tmp'
-        with open(tmp, 'w', encoding='utf-8') as fh:
-            json.dump(rep, fh, default=str)
-        os.replace(tmp, path)
-    return rep
+        slot = _take_slot()
+        try:
+            cfg = cfg_factory(contract)
+            if case is not None and case != 'coverage':
+                case = contract.cases()[case]
+            rep = verify_contract(contract, cfg, timeout_ms, case=case)
+            if use_cache and not rep.get('error'):
+                tmp = path + f'.{os.getpid()}.tmp'
+                with open(tmp, 'w', encoding='utf-8') as fh:
+                    json.dump(rep, fh, default=str)
+                os.replace(tmp, path)
+            return rep
+        finally:
+            if slot is not None:
+                slot.close()
+    finally:
+        lock.close()
+
+
+SLOTS = int(os.environ.get('PYVC_SLOTS', str(os.cpu_count() or 16)))
+
+
+def _take_slot():
+    """A machine-wide budget of verification processes (one advisory file lock per core under .cache/slots): however many
+    checks are started at once, about as many solver processes run as there are cores, so the wall-clock solver budgets
+    mean the same thing under load. Returns the open lock file (closing it frees the slot)."""
+    import fcntl
+    d = os.path.join(CACHE_DIR, 'slots')
+    os.makedirs(d, exist_ok=True)
+    start = os.getpid() % SLOTS
+    while True:
+        for k in range(SLOTS):
+            fh = open(os.path.join(d, f'{(start + k) % SLOTS}'), 'w')     # pylint: disable=consider-using-with
+            try:
+                fcntl.flock(fh, fcntl.LOCK_EX | fcntl.LOCK_NB)
+                return fh
+            except OSError:
+                fh.close()
+        time.sleep(0.25)
 
 
 def verify_many(contracts, cfg_factory, timeout_ms=None, workers=None, include_slow=False):
@@ -370,7 +434,7 @@ def _run_jobs(ijobs, workers):
                     results[ix] = json.load(fh)
                 continue
             attempts[ix] += 1
-            if attempts[ix] < 2:
+            if attempts[ix] < 3:
                 pending.insert(0, ix)
                 continue
             cix, _t, case = ijobs[ix]
@@ -378,7 +442,7 @@ def _run_jobs(ijobs, workers):
             label = '' if case is None else ('#' + (case if isinstance(case, str) else c.cases()[case][0]))
             why = f'signal {os.WTERMSIG(status)}' if os.WIFSIGNALED(status) else f'exit status {os.WEXITSTATUS(status)}'
             results[ix] = {'function': c.qual, 'case': label, 'obligations': [], 'paths': 0, 'out_of_reach': None, 'bounded': False,
-                           'path_kinds': {}, 'error': f'verification worker died twice ({why})'}
+                           'path_kinds': {}, 'error': f'verification worker died three times ({why})'}
     finally:
         shutil.rmtree(tmpdir, ignore_errors=True)
     return results
